@@ -169,7 +169,7 @@ def merged_fields(db, ctx):
 
 @rule("C14.order", "do_tokenize: resolve_best_path, then the path-rewrite plugins in configured order, then split_path")
 def order(db, ctx):
-    f = db.one("do_tokenize", "StatefulTokenizer")
+    f = db.view(db.one("do_tokenize", "StatefulTokenizer"), keep=("rewrite_input", "build_lattice", "resolve_best_path"))
     seq = []
     for c, ps in walk(f.hir):
         if is_call(c) or c.get("k") == "MethodCall":
@@ -178,9 +178,13 @@ def order(db, ctx):
                 if path_ends(cal, nm) and nm.split("::")[-1] not in seq:
                     seq.append(nm.split("::")[-1])
     ctx.ob("do_tokenize|order", seq == ["resolve_best_path", "rewrite", "split_path"], "order: %s" % seq, fn=f)
-    loops = [(n, fl) for n, fl, ps in _loops(f) if mentions(fl[2], lambda x: x.get("k") == "MethodCall" and x.get("method") == "rewrite")]
+    from ..loops import iterations, chain as lchain, propagates_errors, body_parents
+    its = [i_ for i_ in iterations(f.hir) if mentions(i_["body"], lambda x: x.get("k") == "MethodCall" and x.get("method") == "rewrite")]
     ok = False
-    if loops:
-        names, base = _chain(loops[0][1][0])
-        ok = names in ([], ["path_rewrite_plugins"], ["path_rewrite_plugins", "iter"]) or (set(names) <= {"path_rewrite_plugins", "iter"})
+    if len(its) == 1:
+        itn = its[0]
+        ch, base = lchain(db, f, itn["it"])
+        calls = [(c, pp) for c, pp in walk(itn["body"], body_parents(itn)) if c.get("k") == "MethodCall" and c.get("method") == "rewrite"]
+        ok = {m for m, _ in ch} <= {"path_rewrite_plugins", "iter"} and len(calls) == 1 and propagates_errors(itn, calls[0][0], calls[0][1]) and \
+            not any(x.get("k") in ("Break", "Continue") for x, _ in walk(itn["body"]))
     ctx.ob("do_tokenize|all-plugins-in-order", ok, "plugins are applied by a plain loop over path_rewrite_plugins(): %s" % ok, fn=f)
